@@ -1621,10 +1621,20 @@ dt_dtadd(struct dt_dt_s d, struct dt_dtdur_s dur)
 				/* don't have to */
 				;
 			} else if (UNLIKELY(i_d < i_orig)) {
-				d.t.hms.s -= nltr;
+				/* we went back beyond the last leap, so
+				 * that one wasn't on the way after all */
+				d.t.hms.s += leaps_corr[i_orig] - leaps_corr[i_d];
 			} else if (UNLIKELY(i_d > i_orig)) {
-				d = orig;
-				d.t.hms.s += nltr;
+				/* there's been a leap on the way forth */
+				const unsigned int k =
+					leaps_corr[i_d] - leaps_corr[i_orig];
+
+				if (d.t.hms.s >= k) {
+					d.t.hms.s -= k;
+				} else {
+					d = orig;
+					d.t.hms.s += nltr;
+				}
 			}
 		}
 	}
